@@ -22,14 +22,14 @@ CORR = "Coq model of the code + correspondence and property predicates evaluated
 
 CHECKS = {
     "C01": C("proof", COQ, "Theorems (coq/Properties/C01.v) for every schema, document, range and slice: Node.replace and ReplaceStep.apply return a VALID document whenever they return one, given a valid document and a slice whose open sides are non-leaf nodes with canonical marks and whose other nodes are valid (OpenOK; closed slice = valid nodes; the empty slice needs nothing) - proved through the whole rebuild (replace_outer, two/three-way, add_range, close, prepare_slice, resolve). The other clauses (refusal instead of exception; the slices that replace-around, mark and node steps build before calling Node.replace) are evaluated per case: Step model (all eight step types: apply/get_map/invert/map/merge) compared with the implementation on adversarial primitive steps (wrap-like and lift-like replace-around steps with wrappers that cannot hold the gap, JSON round-tripped steps) and on every step the transform API emits; the predicate is the Coq validity checker `check` (= C07's `valid`, theorem check_iff) on the implementation's result, plus 'no internal error class'. Silent invalid results of replace-around steps with a closed wrapper are a recorded upstream finding (the wrapper is an invalid closed node, outside the theorem's hypothesis)."),
-    "C02": C("exploration", CORR, "Function-for-function Gallina model of fragment/node cut, resolve, slice and replace (replace_outer, two/three-way, add_range, close, prepare_slice) agrees with the implementation on every observable; the flat-token law (result tokens = old[:from] ++ inner tokens of slice ++ old[to:], size law, open depths of cuts, normalisation, validity, re-insertion gives back an equal document, failures only as ReplaceError / split surrogate pair) is evaluated in Coq on the implementation's output for all sampled (doc, range, slice) triples."),
+    "C02": C("proof", COQ, "Theorems (coq/Properties/C02.v) for every schema, valid document, range and slice whose open sides have the claimed depth (Shape - true of every slice cut from a document): Node.replace returns a document whose token sequence is EXACTLY old[:from] ++ inner tokens of the slice ++ old[to:] (tokens compared up to Python's True==1 on attribute values), with the root's markup unchanged; the size changes by slice size minus range size; with valid off-spine slice nodes the result is valid (C01). Proved through resolve (a position is a token index), add_range, two/three-way rebuild, close, prepare_slice and replace_outer, with text merging and UTF-16 cuts. Cutting a slice (tokens in the range, open depths), re-inserting a cut slice and the error class of refused replaces (ReplaceError / split surrogate pair) are evaluated in Coq per case; the function-for-function model of cut/resolve/slice/replace agrees with the implementation on every observable."),
     "C03": C("exploration", CORR, "For every applied step (primitive and emitted by every high-level operation): size delta = sum(new-old) over the map's ranges and every old token outside the ranges is found at the mapped position (mark/attr steps: same token shape), evaluated in Coq over all positions. Replace-around steps with an empty gap are a recorded upstream finding."),
     "C04": C("proof", COQ, "Theorems (coq/Properties/C04.v): the recorded steps/docs/maps of a transform stay aligned and replay exactly over ANY sequence of attempted steps, including refused ones (history_Inv, history_replay). Exact single-step undo, inverse maps and whole-history undo are evaluated in Coq on random histories of up to 12 transform operations and on primitive steps (exploration strength for those clauses)."),
     "C05": C("proof", COQ, "Theorems (coq/Properties/C05.v) over the value-level codec, for every schema with distinct type names: decoding the encoding of a mark, node, fragment, slice or any of the eight step types gives back the very same value (so: equal object, identical JSON again, identical effect and map of a decoded step on every document; every step type is dispatched by its published stepType name). Hypotheses are the shapes the library builds (declared attributes in declaration order, rank-sorted marks, non-empty text, empty-content slice = Slice.empty). The model is compared with the implementation after a real json.dumps/json.loads on every case; aliasing of live attribute objects is monitored on the implementation (outside a value model)."),
     "C06": C("proof", COQ, "Brzozowski-derivative semantics of content expressions and a bisimulation certificate checker proved sound for all expressions and automata (check_bisim_sound, check_bisim_prefix, deriv_ok). Every quick run evaluates the checker in Coq against the automaton the implementation compiled for every expression of syntax-tree size <= 3 over {a, b, group}, smaller sweeps over non-generatable and inline alphabets, and random nested expressions: for each of them the statement holds for ALL child sequences. Malformed expressions and the dead-end rule are compared with an oracle computed in Coq."),
     "C07": C("proof", COQ, "Theorems (coq/Properties/C07.v) for all schemas and nodes: valid_content, check, can_replace, can_replace_with, can_append and content_match_at answer exactly the schema's definition of validity (accepted child-type sequence + allowed marks). Correspondence on all index ranges of generated nodes, replacement sub-ranges, corrupted trees."),
     "C08": C("proof", COQ, "Theorems (coq/Properties/C08.v) for every well-formed step map, position and side: monotonicity, the documented rule (outside / inside / edges / insertions), deletion flags, recover round trip; inverted maps by normalisation. Correspondence: exhaustive maps (<=3 ranges, gaps and sizes <=2, both orientations, all positions, both sides), random larger maps, operation-built mappings; mapping composition and mirror round trips evaluated as predicates. Mirror round trip over touching ranges is a recorded upstream finding."),
-    "C09": C("exploration", CORR, "Model of resolve and every accessor (node/index/start/end/before/after/index_after/pos_at_index/offsets/node_before/after/marks/marks_across/shared_depth/block_range), node_at, child_after/before, nodes_between, range_has_mark, text_between agrees with the implementation at every position of generated documents (astral text, non-inclusive marks); the token-picture specification (Spec/TokenPos.v) is evaluated on the implementation's answers."),
+    "C09": C("proof", COQ, "Theorems (coq/Properties/C09.v) for every schema, document and position: resolve succeeds exactly on 0..size; the tokens left/right of the resolved path are exactly the first pos / the remaining tokens of the document (a position IS a token index, one per UTF-16 unit); the path is a parent/child chain of element nodes starting at the document; a non-zero text offset points into a text child; the parent offset is the token index inside the innermost ancestor. The individual accessors (node/index/start/end/before/after/index_after/pos_at_index/offsets/node_before/after/marks/marks_across/shared_depth/block_range), node_at, child_after/before, nodes_between, range_has_mark, text_between are modelled and compared with the implementation at every position of generated documents (astral text, non-inclusive marks), and their token-picture specification (Spec/TokenPos.v) is evaluated on the implementation's answers."),
     "C10": C("exploration", "frame monitor on the implementation driven by model-replayed histories; accumulator theorem in Coq", "Theorem accumulators_append_only (transform bookkeeping only appends). In-place mutation/aliasing of Python objects cannot be exhibited by a value-level model: every object handed out during random histories (documents, fragments, slices, marks, mark lists, steps, maps, the shared empties) is snapshotted and re-serialised after every operation; histories also replay through the model."),
     "C11": C("exploration", CORR, "Seven replace-family operations on the bundled schema family: never raise, emitted steps replay through the model, result valid (Coq check), content before/after preserved in order, inserted content an in-order subsequence of the slice's (marks only dropped, only required block fillers added), deletions add no text. Silent no-op when the fitter cannot close is a recorded upstream finding."),
     "C12": C("exploration", CORR, "Seven structure helpers: never crash, in-range results, approval implies the edit succeeds, is valid (Coq check) and preserves the leaf sequence for split/join/lift/wrap; emitted steps replay through the model. find_wrapping ignoring marks on block nodes is a recorded upstream finding."),
